@@ -144,3 +144,14 @@ Proof.
   destruct l as [|y r]; [left; reflexivity | right].
   exists (removelast (y :: r)), (last (y :: r) y). apply app_removelast_last. discriminate.
 Qed.
+
+(* ---------- three levels ---------- *)
+
+Lemma inner3_put3_eq {A} (m : n3map A) j a b v : inner3 (put3 m j a b v) j = put2 (inner3 m j) a b v.
+Proof. unfold inner3 at 1, put3. rewrite nget_nput_eq. reflexivity. Qed.
+
+Lemma inner3_put3_neq {A} (m : n3map A) j j' a b v : j <> j' -> inner3 (put3 m j a b v) j' = inner3 m j'.
+Proof. intros H. unfold inner3, put3. rewrite nget_nput_neq by exact H. reflexivity. Qed.
+
+Lemma get3_put3_eq {A} (m : n3map A) j a b v : get3 (put3 m j a b v) j a b = Some v.
+Proof. unfold get3. rewrite inner3_put3_eq. apply get2_put2_eq. Qed.
